@@ -127,10 +127,7 @@ Proof.
 Qed.
 
 Lemma set_len_pos a args : 0 < set_len (a :: args).
-Proof.
-  unfold set_len, py_set. cbn [fold_left]. pose proof (py_set_fold_len args (set_add a [])) as H.
-  change (set_add a []) with [a] in *. cbn [List.length] in H. lia.
-Qed.
+Proof. unfold set_len. cbn [List.length]. lia. Qed.
 
 Lemma leaves_good l : forallb is_var l = true -> Forall good l.
 Proof.
